@@ -15,6 +15,10 @@ const MAGIC: &[u8; 6] = b"\x93NUMPY";
 /// and header dictionary are padded to a multiple of this.
 const HEADER_ALIGN: usize = 64;
 
+/// Maximum number of bytes reserved up front based on a length read from a
+/// file. Larger buffers grow as data is read.
+const MAX_PREALLOC: usize = 1 << 20;
+
 fn invalid_data(msg: impl Into<String>) -> io::Error {
     io::Error::new(io::ErrorKind::InvalidData, msg.into())
 }
@@ -75,12 +79,10 @@ fn read_typed<T: Element>(header: &Header, mut reader: impl io::Read) -> io::Res
         .checked_mul(T::ITEM_SIZE)
         .ok_or_else(|| invalid_data("array size in bytes overflows"))?;
 
-    // Reject implausibly large arrays so a corrupt or malicious header cannot
-    // request a huge allocation.
-    if n_bytes > u32::MAX as usize {
-        return Err(invalid_data("array is too large"));
-    }
-    let mut data = Vec::with_capacity(n_bytes);
+    // Don't trust the size in the header when reserving memory, so a corrupt
+    // or malicious header cannot request a huge allocation. The buffer grows
+    // as data is actually read.
+    let mut data = Vec::with_capacity(n_bytes.min(MAX_PREALLOC));
     reader
         .by_ref()
         .take(n_bytes as u64)
@@ -199,8 +201,15 @@ fn read_header(mut reader: impl io::Read) -> io::Result<Header> {
         }
     };
 
-    let mut header = vec![0u8; header_len];
-    reader.read_exact(&mut header)?;
+    // As with the array data, don't reserve `header_len` bytes up front.
+    let mut header = Vec::with_capacity(header_len.min(MAX_PREALLOC));
+    reader
+        .by_ref()
+        .take(header_len as u64)
+        .read_to_end(&mut header)?;
+    if header.len() != header_len {
+        return Err(io::ErrorKind::UnexpectedEof.into());
+    }
     let header =
         std::str::from_utf8(&header).map_err(|_| invalid_data("npy header is not valid UTF-8"))?;
 
